@@ -55,6 +55,8 @@ def smaller(t):
             yield ("a", t[1], v)
     else:
         w = t[1]
+        if "$" in w:                            # a reference into the type table: see shrink_prog
+            return
         if len(w) == 2 and w[1].isdigit():      # vector: fewer components, then the scalar
             if int(w[1]) > 2:
                 yield ("l", w[0] + str(int(w[1]) - 1))
@@ -81,9 +83,29 @@ def shrink_types(tys):
             yield tys[:i] + [show(v)] + tys[i + 1:]
 
 
+REF = re.compile(r"(c?)\$(\d+)")
+
+
+def refs_of(ty):
+    return {int(m.group(2)) for m in REF.finditer(ty)}
+
+
+def drop_entry(tys, sites, k):
+    """the request without entry k of the type table (nothing may refer to it): later indices move down"""
+    def down(j):
+        return j - (1 if j > k else 0)
+    nt = [REF.sub(lambda m: "%s$%d" % (m.group(1), down(int(m.group(2)))), t) for i, t in enumerate(tys) if i != k]
+    ns = []
+    for x in sites:
+        a, b = x.split("@")
+        ns.append("%s@%d" % (a, down(int(b))))
+    return nt, ns
+
+
 def shrink_prog(f):
     head, tys, sites = f[1], f[2].split(";"), f[3].split(",")
     target, mode, style = head.split(":")
+    shared = any("$" in t for t in tys)
     # plain spelling, Vulkan, no pipeline
     if style != "0":
         yield "\t".join([f[0], ":".join([target, mode, "0"]), f[2], f[3]])
@@ -95,15 +117,26 @@ def shrink_prog(f):
     if len(sites) > 1:
         for i in range(len(sites)):
             yield "\t".join([f[0], head, f[2], ",".join(sites[:i] + sites[i + 1:])])
-    # drop a type nobody uses (re-index the sites)
+    # drop a type nobody uses: no site and no other entry of the table (re-index the sites and the references)
     used = {int(x.split("@")[1]) for x in sites}
+    for t in tys:
+        used |= refs_of(t)
     for k in range(len(tys)):
         if k not in used and len(tys) > 1:
-            ns = []
-            for x in sites:
-                a, b = x.split("@")
-                ns.append("%s@%d" % (a, int(b) - (1 if int(b) > k else 0)))
-            yield "\t".join([f[0], head, ";".join(tys[:k] + tys[k + 1:]), ",".join(ns)])
+            nt, ns = drop_entry(tys, sites, k)
+            yield "\t".join([f[0], head, ";".join(nt), ",".join(ns)])
+    if shared:
+        # a site at another name of the same type (`$j` / `c$j` as a whole entry) -> at the type itself
+        for i, x in enumerate(sites):
+            a, b = x.split("@")
+            m = REF.fullmatch(tys[int(b)].strip())
+            if m:
+                yield "\t".join([f[0], head, f[2], ",".join(sites[:i] + ["%s@%s" % (a, m.group(2))] + sites[i + 1:])])
+        # a copy instead of the shared definition: one reference at a time
+        for k, t in enumerate(tys):
+            for m in REF.finditer(t):
+                if m.group(1) == "" and not REF.fullmatch(t.strip()):
+                    yield "\t".join([f[0], head, ";".join(tys[:k] + [t[:m.start()] + tys[int(m.group(2))] + t[m.end():]] + tys[k + 1:]), f[3]])
     for v in shrink_types(tys):
         yield "\t".join([f[0], head, ";".join(v), f[3]])
 
@@ -181,6 +214,20 @@ def search(ctx):
         for w in ("dt", "dta"):
             reqs.append("C19.prog\tvk:np:0\t{f f2}\t%s.%s@0" % (k, w))
             reqs.append("C19.prog\tmsl:pipe:0\t{f f};{f f2}\t%s.%s@0,sb@1" % (k, w))
+    # one struct definition shared by two checked structs / used twice in one: a first use whose layout is hidden in
+    # padding, then one where it decides (any state kept between the layout queries)
+    pre = ["", "h ", "u ", "d "]
+    post = ["", " h", " f", " u", " d"]
+    for e in ("{}", "{h}", "{f2 f}", "{{}}"):
+        for a in pre:
+            for b in post:
+                for c in pre:
+                    for d in post:
+                        A, B = "{%s$0%s}" % (a, b), "{%s$0%s}" % (c, d)
+                        reqs.append("C19.prog\tvk:np:0\t%s;%s;%s\tsb@1,sb@2" % (e, A, B))
+                        if e == "{}":
+                            reqs.append("C19.prog\tvk:np:0\t%s;%s;%s\tbload.m@1,rwbload.u@2" % (e, A, B))
+                            reqs.append("C19.prog\tvk:np:0\t%s;{%s$0%s %s$0%s}\tsb@1" % (e, a, b, c, d))
     return reqs
 
 
